@@ -19,12 +19,15 @@ clause), mirroring — quirks included —
       pkg/es/writer/esDocIndexingHandler.go ProcessPutPostSingleDocRequest
                                   jsoniter decode with UseNumber into a map, `_id` := the id, marshal again
                                   (members sorted by key at every level, number tokens kept); afterwards
-                                  SendIndexSuccess asserts `request["_type"].(string)` / `request["_index"].(string)`
+                                  SendIndexSuccess echoes `_type` / `_index` when they are strings (checked assertions
+                                  since the repair; `esDocPanicsOld` is the class that used to panic)
       pkg/integrations/splunk/splunk.go getPLE                   the WHOLE envelope {time, host, source, sourcetype,
-                                  index, event, fields} decoded by encoding/json into a map (numbers become float64)
-                                  and marshalled again (sorted, floats re-rendered)
+                                  index, event, fields} decoded by encoding/json into a map and marshalled again
+                                  (sorted); as repaired with UseNumber: number tokens are kept (before: float64,
+                                  re-rendered — `hecNumModeOld`)
       pkg/integrations/loki/loki.go processJsonLogs              map: stream labels, then `timestamp`, `line`, then the
-                                  members of the optional third element of the value override; marshalled (sorted)
+                                  members of the optional third element of the value override; marshalled (sorted);
+                                  decoded with UseNumber since the repair
       pkg/otlp/logs.go extractLogRecord / ingestLogs, pkg/otlp/utils.go extractAnyValue
                                   struct recordInfo {resource{attributes,dropped_attributes_count,schema_url},
                                   scope{name,version,attributes,dropped_attributes_count,schema_url}, time_unix_nano,
@@ -306,8 +309,8 @@ structure Consts where
 
 /-- how a number token reaches the flattener -/
 inductive NumMode where
-  | direct     -- the token as sent (ES bulk; ES doc API: UseNumber)
-  | viaF64     -- decoded into float64 and rendered again (HEC, Loki): `jtok`
+  | direct     -- the token as sent (ES bulk; ES doc API, and since the repair HEC and Loki: UseNumber, json.Number marshals as its literal)
+  | viaF64     -- decoded into float64 and rendered again: `jtok` (OTLP doubles; HEC and Loki BEFORE the repair)
   | otlp       -- int64 when the token is an integer inside int64, else double (then as viaF64)
 deriving DecidableEq, Repr
 
@@ -318,13 +321,15 @@ def envEs (t : Members) : Members := t
 def envEsDoc (t : Members) : Members :=
   sortMembers (.cons (N.u_id) (jstr "id") (t.erase (N.u_id)))
 
-/-- after ingesting, SendIndexSuccess does `request["_type"].(string)` and `request["_index"].(string)` -/
-def esDocPanics (t : Members) : Bool :=
-  let nonString (k : String) : Bool := match t.get? (bytesOf k) with
+/-- BEFORE the repair: after ingesting, SendIndexSuccess did `request["_type"].(string)` and
+`request["_index"].(string)` — a panic in the request handler for any other JSON type.  As repaired the assertions are
+checked (a non-string member is left out of the response), the handler answers for every document. -/
+def esDocPanicsOld (t : Members) : Bool :=
+  let nonString (k : Bytes) : Bool := match t.get? k with
     | none => false
     | some (.leaf (.str _)) => false
     | some _ => true
-  nonString "_type" || nonString "_index"
+  nonString N.u_type || nonString N.u_index
 
 /-- Splunk HEC: the whole envelope -/
 def envHec (c : Consts) (t : Members) : Members :=
@@ -381,21 +386,37 @@ def showF64 (f : F64) : String :=
       let d := e - g
       if d = 0 then s!"n{sign}{num}" else s!"n{sign}{num}/{2 ^ d}"
 
-/-- parseSingleNumber's reading of a token: int64 when jsonparser.ParseInt accepts it, else float64 -/
-def showTok (t : List Char) : String :=
-  match jpParseInt t with
-  | some i => s!"n{i}"
-  | none => match jpParseFloat t with
-    | some f => showF64 f
-    | none => "?"
+/-- what a stored number column holds -/
+inductive NumVal where
+  | int (i : Int)      -- VALTYPE_ENC_INT64
+  | flt (f : F64)      -- VALTYPE_ENC_FLOAT64
+deriving DecidableEq, Repr
 
-def showNum (m : NumMode) (tok jtok : List Char) : String :=
+/-- parseSingleNumber's reading of a token: int64 when jsonparser.ParseInt accepts it, else float64 (also for an
+integer OUTSIDE int64 — known finding content/es-int-beyond-int64-altered); `none`: neither parser accepts it (the
+document is refused) -/
+def readTok (t : List Char) : Option NumVal :=
+  match jpParseInt t with
+  | some i => some (.int i)
+  | none => (jpParseFloat t).map .flt
+
+/-- the column value of a number leaf that reaches the flattener in mode `m` -/
+def storedNum (m : NumMode) (tok jtok : List Char) : Option NumVal :=
   match m with
-  | .direct => showTok tok
-  | .viaF64 => showTok jtok
+  | .direct => readTok tok
+  | .viaF64 => readTok jtok
   | .otlp => match jpParseInt tok with
-    | some i => s!"n{i}"
-    | none => showTok jtok
+    | some i => some (.int i)
+    | none => readTok jtok
+
+def showNumVal : Option NumVal → String
+  | some (.int i) => s!"n{i}"
+  | some (.flt f) => showF64 f
+  | none => "?"
+
+def showTok (t : List Char) : String := showNumVal (readTok t)
+
+def showNum (m : NumMode) (tok jtok : List Char) : String := showNumVal (storedNum m tok jtok)
 
 /-- canonical value; `none` = not printed (null = absent; the empty string is returned as absent: known C01 class) -/
 def showScalar (m : NumMode) : Atom → Option String
@@ -435,11 +456,17 @@ structure Case where
   msg : Bytes
   tree : Members
 
+/-- how numbers reach the flattener through Splunk HEC and Loki JSON push: as repaired the handlers decode with
+UseNumber, the literal token survives the re-marshalling -/
+def hecNumMode : NumMode := .direct
+/-- before the repair: float64 and back -/
+def hecNumModeOld : NumMode := .viaF64
+
 def answer (c : Consts) (k : Case) : String :=
   let es := canonical .direct (flatten tsKey (envEs k.tree))
-  let doc := if esDocPanics k.tree then "panic" else canonical .direct (flatten tsKey (envEsDoc k.tree))
-  let hec := canonical .viaF64 (flatten tsKey (envHec c k.tree))
-  let loki := canonical .viaF64 (flatten tsKey (envLoki c k.msg k.tree))
+  let doc := canonical .direct (flatten tsKey (envEsDoc k.tree))
+  let hec := canonical hecNumMode (flatten tsKey (envHec c k.tree))
+  let loki := canonical hecNumMode (flatten tsKey (envLoki c k.msg k.tree))
   let otlp := if hasNullMembers k.tree then "rejected" else canonical .otlp (flatten tsKey (envOtlp c k.bodyTree k.ids k.msg k.tree))
   s!"es={es} | esdoc={doc} | hec={hec} | loki={loki} | otlp={otlp}"
 
